@@ -38,6 +38,8 @@ class MaildirRun(StoreRun):
         self.shims: dict[int, _BoxShim] = {1: _BoxShim(), 2: _BoxShim()}
         self.probe: Probe | None = None
         self.paths: dict[int, str] = {}
+        self.ndelivered = 0
+        self.key_of: dict[tuple[int, int], str] = {}   # (mailbox, uid) -> maildir key, as last seen
 
     async def start(self, sessions) -> 'MaildirRun':
         _patch_pick()
@@ -86,8 +88,43 @@ class MaildirRun(StoreRun):
     def box(self, num: int):
         return self.shims.get(num, self.shims[1])
 
+    async def do(self, label):
+        """As StoreRun.do; a delivery is an MDA dropping a file into new/ (or cur/) whose name
+        has no info part, after which some session (the probe) looks at the mailbox, which
+        gives the file its UID."""
+        if label[0] == 'deliver':
+            import os
+            from .store_env import content_bytes
+            _, box, fl, recent, content = label
+            assert not fl, 'an external maildir delivery carries no flags'
+            path = self.paths[box]
+            self.ndelivered += 1
+            name = f'1700000000.H{self.ndelivered}P{content}.harness'
+            tmp = os.path.join(path, 'tmp', name)
+            with open(tmp, 'wb') as f:
+                f.write(content_bytes(content))
+            os.rename(tmp, os.path.join(path, 'new' if recent else 'cur', name))
+            await self.refresh()
+            return label, [], b''
+        return await super().do(label)
+
+    def message_exists(self, num: int, uid: int) -> bool:
+        """Is the file that carried this uid (when the harness last looked) still there."""
+        import os
+        key = self.key_of.get((num, uid))
+        if key is None or num not in self.paths:
+            return False
+        for sub in ('new', 'cur'):
+            for name in os.listdir(os.path.join(self.paths[num], sub)):
+                if name.partition(':')[0] == key:
+                    return True
+        return False
+
     def boxes(self):
         return {}
+
+    def alive_uids(self, num: int) -> set[int]:
+        return {u for u, _, _ in self.md_box_obs(num)['msgs']} if num in self.paths else set()
 
     def md_box_obs(self, num: int) -> dict:
         """The mailbox as the files say (synchronous, reads only)."""
@@ -104,6 +141,7 @@ class MaildirRun(StoreRun):
         code = {'R': 1, 'T': 2, 'D': 3, 'F': 4, 'S': 5}
         msgs = []
         for rec in uidl.records:
+            self.key_of[(num, rec.uid)] = rec.key
             if rec.key in files:
                 sub, letters = files[rec.key]
                 msgs.append((rec.uid, sorted({code[c] for c in letters if c in code}), sub == 'new'))
@@ -147,9 +185,9 @@ async def monitored_maildir_trace(rng, *, nsess: int, nsteps: int, checkpoint_ev
     mon.probe = run.probe
     trace = Trace()
     trace.setup = run.setup_labels()
-    weights = {'idle': 0, 'deliver': 0, 'check': 2}
+    weights = {'idle': 0, 'deliver': 2, 'check': 4}
     gen = TraceGen(rng, run, sessions, boxes=(1,), idle=False, weights=weights, group=group,
-                   flipflop=flipflop, deliveries=False)
+                   flipflop=flipflop, deliveries=True, plain_deliveries=True)
     hooks = (mon.hook,)
     try:
         for s in sessions:
@@ -183,7 +221,7 @@ async def monitored_maildir_fixed(labels, *, nsess: int, layout: str = '++'):
     hooks = (mon.hook,)
     try:
         for label in labels:
-            if label[0] in ('wake', 'done', 'deliver'):
+            if label[0] in ('wake', 'done'):
                 continue
             await exec_label(run, trace, label, hooks)
         await mon.checkpoint(run, trace, 0, force=True)
